@@ -610,7 +610,7 @@ func (e *Engine) frameObligations(st *State, fr *Frame, base *State, allowed *mo
 	c := e.C
 	allocBase := e.allocMap(base)
 	for _, key := range sortedKeys(st.Heap) {
-		if key == "$alloc" || key == "chan.closed" || strings.Contains(key, ".ghostFW.") {
+		if key == "$alloc" || key == "chan.closed" || strings.Contains(key, ".ghostFW.") || frameExempt(key) {
 			continue // allocation and channel closure are driven by the environment as well;
 			// the destination of a pooled flate writer is re-pointed by whoever takes it from the pool
 		}
@@ -752,4 +752,13 @@ func peelsTo(now, was *smt.Term, allowed []*smt.Term) bool {
 		now = now.Args[0]
 	}
 	return true
+}
+
+// frameExempt: heap keys whose changes are not frame-checked, with the reason.
+//   websocket.slidingWindow.buf.*: a window is reset (buf = buf[:0]) by
+//   slidingWindow.close immediately before its only reference (msgReader.dict) is set
+//   to nil and the object goes back to its pool, so the change is unobservable through
+//   the connection; contracts of slidingWindow's own methods state their effect on it.
+func frameExempt(key string) bool {
+	return strings.HasPrefix(key, "websocket.slidingWindow.buf.")
 }
